@@ -30,6 +30,8 @@ inductive Call where
   | truncate (o : Obj)          -- ftruncate
   | unlink (o : Obj)
   | close (o : Obj)
+  | openBad                     -- an open that breaks the file discipline of ErgoModel.Files: the temporary file without O_TRUNC (a stale one
+                                -- would shine through), or the log opened for writing without O_APPEND (a write would land at the descriptor's offset)
   | other                       -- anything else on the store's files
   deriving DecidableEq, Repr, Inhabited
 
@@ -43,6 +45,15 @@ def mutatesLog : Call → Bool
 def mutatesLock : Call → Bool
   | .renameLock | .unlink .lock | .truncate .lock => true
   | _ => false
+
+/-- an open without the flag the results of `ErgoModel.Files` depend on (`FilesThm.rewrite_without_trunc_keeps_stale_bytes`,
+    `appendUnterminated_without_append_clobbers`) -/
+def undisciplined : Call → Bool
+  | .openBad => true
+  | _ => false
+
+/-- neither the lock's name nor the open flags are tampered with -/
+def breaksDiscipline (c : Call) : Bool := mutatesLock c || undisciplined c
 
 /-- does this call look at the log's content? -/
 def readsLog : Call → Bool
@@ -89,7 +100,7 @@ def bodyOK (ins : List Call) : Bool :=
 
 /-- a writer that got the lock -/
 def writerOK (p : List Call) : Bool :=
-  !p.any mutatesLock &&
+  !p.any breaksDiscipline &&
   match split p with
   | none => false
   | some s =>
@@ -99,12 +110,12 @@ def writerOK (p : List Call) : Bool :=
 
 /-- a writer that found the lock taken: it neither reads nor changes anything -/
 def busyOK (p : List Call) : Bool :=
-  !p.any mutatesLock && p.contains (.flockEx false) && !p.contains (.flockEx true) &&
+  !p.any breaksDiscipline && p.contains (.flockEx false) && !p.contains (.flockEx true) &&
   !p.any (fun c => mutatesLog c || readsLog c || c == .write .tmp || c == .flockUn)
 
 /-- a reader: no lock call at all, the log opened exactly once read-only, nothing changed -/
 def readerOK (p : List Call) : Bool :=
-  !p.any mutatesLock && !p.any isLock && !p.contains .flockUn &&
+  !p.any breaksDiscipline && !p.any isLock && !p.contains .flockUn &&
   (p.filter (· == .openRO .log)).length ≤ 1 && !p.contains .openAppend && !p.contains .openTmp &&
   !p.any (fun c => mutatesLog c || c == .write .tmp || c == .write .lock)
 
